@@ -43,25 +43,76 @@ impl<'a> From<&'a LuaDeclId> for ScopeOrDeclId {
 // ---- LuaDecl: opaque. Its accessors are uninterpreted functions of the declaration (weakest contract of a pure getter) -------------
 #[verifier::external_body]
 pub struct LuaDecl { _p: u8 }
-pub uninterp spec fn decl_name(d: &LuaDecl) -> Seq<char>;
-pub uninterp spec fn decl_id(d: &LuaDecl) -> LuaDeclId;
-pub uninterp spec fn decl_is_self(d: &LuaDecl) -> bool;
+pub uninterp spec fn dname(d: &LuaDecl) -> Seq<char>;
+pub uninterp spec fn did(d: &LuaDecl) -> LuaDeclId;
+pub uninterp spec fn dself(d: &LuaDecl) -> bool;
 impl LuaDecl {
     #[verifier::external_body]
-    pub fn get_name(&self) -> (r: &str) ensures r@ == decl_name(self) { unimplemented!() }
+    pub fn get_name(&self) -> (r: &str) ensures r@ == dname(self) { unimplemented!() }
     #[verifier::external_body]
-    pub fn get_id(&self) -> (r: LuaDeclId) ensures r == decl_id(self) { unimplemented!() }
+    pub fn get_id(&self) -> (r: LuaDeclId) ensures r == did(self) { unimplemented!() }
     #[verifier::external_body]
-    pub fn is_implicit_self(&self) -> (r: bool) ensures r == decl_is_self(self) { unimplemented!() }
+    pub fn is_implicit_self(&self) -> (r: bool) ensures r == dself(self) { unimplemented!() }
 }
 
 pub open spec fn keys_ok() -> bool { vstd::std_specs::hash::obeys_key_model::<LuaDeclId>() }
+
+//@@include c13_scope/scope_spec.rs
+//@@include c13_scope/scope_lemmas.rs
 
 //@@ LuaDeclarationTree
 
 impl LuaDeclarationTree {
     //@@ LuaDeclarationTree::get_decl
     //@@ LuaDeclarationTree::get_scope
+    //@@ LuaDeclarationTree::visit_child_scope
+    //@@ LuaDeclarationTree::search_scope_children
+    //@@ LuaDeclarationTree::visit_visible_decls
+    //@@ LuaDeclarationTree::find_scope
+    //@@ LuaDeclarationTree::find_local_decl::visitor
+    //@@ LuaDeclarationTree::get_env_decls::visitor
+}
+
+// ---- the two visitors: closure conversion of `|decl_id| { .. }` in find_local_decl / get_env_decls (rule c13-closure-visitor). One field
+// per captured variable; `visit` forwards to the closure body, which is extracted from the repository as a statement slice.
+pub struct FindVisitor<'a, 'n> { pub this: &'a LuaDeclarationTree, pub name: &'n str, pub result: Option<&'a LuaDecl> }
+pub open spec fn find_hit(t: &LuaDeclarationTree, name: Seq<char>, x: ScopeOrDeclId) -> bool {
+    x matches ScopeOrDeclId::Decl(d) && t.decls@.contains_key(d) && dname(&t.decls@[d]) == name
+}
+impl<'a, 'n> DeclVisitor for FindVisitor<'a, 'n> {
+    type S = (&'a LuaDeclarationTree, Seq<char>, Option<&'a LuaDecl>);
+    open spec fn inv(self) -> bool { keys_ok() }
+    open spec fn state(self) -> Self::S { (self.this, self.name@, self.result) }
+    open spec fn step(s: Self::S, x: ScopeOrDeclId) -> Self::S {
+        if find_hit(s.0, s.1, x) { (s.0, s.1, Some(&s.0.decls@[x->Decl_0])) } else { s }
+    }
+    open spec fn stops(s: Self::S, x: ScopeOrDeclId) -> bool { find_hit(s.0, s.1, x) }
+    fn visit(&mut self, x: ScopeOrDeclId) -> (r: bool) {
+        let this = self.this; let name = self.name;
+        this.find_local_decl__visitor(name, &mut self.result, x)
+    }
+}
+pub struct EnvVisitor<'a> { pub this: &'a LuaDeclarationTree, pub result: Vec<LuaDeclId> }
+pub open spec fn env_hit(t: &LuaDeclarationTree, x: ScopeOrDeclId) -> bool {
+    x matches ScopeOrDeclId::Decl(d) && t.decls@.contains_key(d) && !dself(&t.decls@[d])
+}
+impl<'a> DeclVisitor for EnvVisitor<'a> {
+    type S = (&'a LuaDeclarationTree, Seq<LuaDeclId>);
+    open spec fn inv(self) -> bool { keys_ok() }
+    open spec fn state(self) -> Self::S { (self.this, self.result@) }
+    open spec fn step(s: Self::S, x: ScopeOrDeclId) -> Self::S {
+        if env_hit(s.0, x) { (s.0, s.1.push(did(&s.0.decls@[x->Decl_0]))) } else { s }
+    }
+    open spec fn stops(s: Self::S, x: ScopeOrDeclId) -> bool { false }
+    fn visit(&mut self, x: ScopeOrDeclId) -> (r: bool) {
+        let this = self.this;
+        this.get_env_decls__visitor(&mut self.result, x)
+    }
+}
+
+impl LuaDeclarationTree {
+    //@@ LuaDeclarationTree::find_local_decl
+    //@@ LuaDeclarationTree::get_env_decls
 }
 
 fn main() {}
